@@ -5,28 +5,29 @@
    file is byte-identical to the one written without a pool. *)
 EXTENDS PoolAbs, TLC, Json, IOUtils
 Tr == ndJsonDeserialize(IOEnv.TRACE)
-VARIABLES l, nclients
-tv == <<pvars, l, nclients>>
+VARIABLES l, nclients, ncallers
+tv == <<pvars, l, nclients, ncallers>>
 Ev == Tr[l]
 Is(e) == l <= Len(Tr) /\ Ev.e = e /\ l' = l + 1
-TInit == PInit /\ l = 1 /\ nclients = 0
+TInit == PInit /\ l = 1 /\ nclients = 0 /\ ncallers = 1
 TReset == /\ Is("Reset") /\ submitted' = <<>> /\ started' = {} /\ ended' = {} /\ delivered' = <<>> /\ workers' = {} /\ closed' = {}
-          /\ UNCHANGED <<maxw, ordered, nclients>>
-TCfg == /\ Is("Cfg") /\ maxw' = Ev.max /\ ordered' = {Ev.ordc[i] : i \in DOMAIN Ev.ordc} /\ nclients' = Ev.clients
+          /\ UNCHANGED <<maxw, ordered, nclients, ncallers>>
+TCfg == /\ Is("Cfg") /\ maxw' = Ev.max /\ ordered' = {Ev.ordc[i] : i \in DOMAIN Ev.ordc} /\ nclients' = Ev.clients /\ ncallers' = Ev.callers
         /\ UNCHANGED <<submitted, started, ended, delivered, workers, closed>>
-TDispatch == Is("Dispatch") /\ Dispatch(Ev.c, Ev.j) /\ UNCHANGED nclients
-TJobStart == Is("JobStart") /\ JobStart(Ev.j, Ev.w) /\ UNCHANGED nclients
-TJobEnd == Is("JobEnd") /\ JobEnd(Ev.j, Ev.w) /\ UNCHANGED nclients
-TDeliver == Is("Deliver") /\ Deliver(Ev.c, Ev.j) /\ UNCHANGED nclients
-TClosed == Is("Closed") /\ Close(Ev.c) /\ UNCHANGED nclients
-\* pool destroyed: every client closed; never more live threads than workers + one handler per client
-TDestroyed == /\ Is("PoolDestroyed") /\ closed = 1..nclients /\ Ev.maxlive <= maxw + nclients
-              /\ UNCHANGED <<pvars, nclients>>
+TDispatch == Is("Dispatch") /\ Dispatch(Ev.c, Ev.j) /\ UNCHANGED <<nclients, ncallers>>
+TJobStart == Is("JobStart") /\ JobStart(Ev.j, Ev.w) /\ UNCHANGED <<nclients, ncallers>>
+TJobEnd == Is("JobEnd") /\ JobEnd(Ev.j, Ev.w) /\ UNCHANGED <<nclients, ncallers>>
+TDeliver == Is("Deliver") /\ Deliver(Ev.c, Ev.j) /\ UNCHANGED <<nclients, ncallers>>
+TClosed == Is("Closed") /\ Close(Ev.c) /\ UNCHANGED <<nclients, ncallers>>
+\* pool destroyed: every client closed; never more live threads than workers + one handler per client (+ the caller
+\* threads other than the main thread, when every client has its own)
+TDestroyed == /\ Is("PoolDestroyed") /\ closed = 1..nclients /\ Ev.maxlive <= maxw + nclients + (ncallers - 1)
+              /\ UNCHANGED <<pvars, nclients, ncallers>>
 \* a pooled writer finished: the file is byte-identical to the one written without a pool, the run ended normally
-TFileSame == Is("FileSame") /\ Ev.same /\ Ev.exit = "ok" /\ Ev.maxlive <= Ev.max + 1 /\ UNCHANGED <<pvars, nclients>>
+TFileSame == Is("FileSame") /\ Ev.same /\ Ev.exit = "ok" /\ Ev.maxlive <= Ev.max + 1 /\ UNCHANGED <<pvars, nclients, ncallers>>
 \* "Deadlock" (the scheduler found no enabled thread) and abnormal endings have no action: they are violations
 \* replay of a model behaviour's lock order: how much of it the real code consumed is coverage information, not a verdict
-TLockOrder == Is("LockOrder") /\ UNCHANGED <<pvars, nclients>>
+TLockOrder == Is("LockOrder") /\ UNCHANGED <<pvars, nclients, ncallers>>
 TNext0 == TLockOrder \/ TReset \/ TCfg \/ TDispatch \/ TJobStart \/ TJobEnd \/ TDeliver \/ TClosed \/ TDestroyed \/ TFileSame
 TSpec == TInit /\ [][TNext0]_tv
 Accepted == TLCGet("stats").diameter - 1 = Len(Tr)
